@@ -1,15 +1,18 @@
 import Abmarl.Model.GridWire
 import Abmarl.Spec.Placement
+import Abmarl.Spec.GridSim
 /-!
 Driver glue for C13.
 
 `(gplace stat dynPre opts tape implOutcome)`
   opts    = `(kind noOverlap randomize cluster scatter target (barrier…) (free…))`, kind ∈ position|target|maze
   outcome = `(ok dynPost)` | `(err kind dynPost)`   (dynPost of an error: the grid it leaves behind)
-  reply   = `(modelOutcome (spec wf) (spec static vitals posInv fixedOnInit aloneFinal maze replay))` —
+  reply   = `(modelOutcome (spec wf c03) (spec static vitals posInv fixedOnInit aloneFinal maze replay c03))` —
             `specPlacement` on the model's and on the implementation's outcome (1/0, -1 when
             absent/unparsable), the latter followed by its conjuncts; `wf` = `wfPlacement`, the
-            decidable hypothesis of the theorems.
+            decidable hypothesis of the theorems.  The trailing `c03` of both lists is `specC03Place`
+            (Spec/GridSim.lean; read by the C03 check only): a successful reset that finds everybody
+            alive with legal vitals leaves a world satisfying `WInv`.
 
 `(gmaze rows cols (r c) tape implOutcome)`
   outcome = `(ok (flat maze))` | `(err kind)`
@@ -68,10 +71,10 @@ def handlePlace (args : List Val) : Option Val := do
     let (kind, o) ← opts? opts
     let t ← tape.nats?
     let m := (resetX kind o w t).1
-    let ms : Val := .list [b2v (specPlacement kind o w t m), b2v (wfPlacement kind o w)]
+    let ms : Val := .list [b2v (specPlacement kind o w t m), b2v (wfPlacement kind o w), b2v (specC03Place w m)]
     let is : Val :=
       match out? stat impl with
-      | some io => .list (parts kind o w t io)
+      | some io => .list (parts kind o w t io ++ [b2v (specC03Place w io)])
       | none => .list [.int (-1)]
     pure (.list [encOut m, ms, is])
   | _ => none
